@@ -265,8 +265,10 @@ class HpcSubmitter:
                         submitted_jobs.append(job)
                         submitted_jobs_by_name.add(job.name)
                         blocked_jobs_by_name.pop(job.name, None)
-                    else:
+                    elif i == highest_index:
                         # Need to look at this job in the next round.
+                        # In a later pass (try_add_blocked_jobs) the job is behind jobs that were
+                        # already placed; stepping back then would hand a placed job out again.
                         highest_index -= 1
                 if batch.is_ready_to_submit or len(submitted_jobs_by_name) == len(available_jobs):
                     done = True
